@@ -160,6 +160,29 @@ Definition defect_with (O : opts) (D : design) : option defect :=
       else None
   end.
 
+(* every family that may be reported: elaboration stops at the first failing check stage, but inside one stage (operator
+   checks over several blocks; port rules along several connections) which offending statement is met first depends on
+   iteration order, so all alternatives of that stage are admissible *)
+Definition flag (b : bool) (d : defect) : list defect := if b then [d] else [].
+Definition op_alts (D : design) : list defect :=
+  flag (existsb (fun w => w_ff w && negb (is_shl (w_op w))) (d_wr D)) FFBlkWrite
+  ++ flag (existsb (fun w => w_ff w && negb (is_top_level (adr D (w_node w)))) (d_wr D)) FFNonTop
+  ++ flag (existsb (fun w => negb (w_ff w) && negb (is_at (w_op w))) (d_wr D)) BlkWrite.
+Definition defect_alts (O : opts) (D : design) : list defect :=
+  match op_alts D with
+  | (_ :: _) as l => l
+  | [] =>
+    if conn_loop (edges D) then [InvalidConn]
+    else
+      let N := components (edges D) in
+      let R := driven_final O D N in
+      if net_multi O D N R || blk_multi O D then [MultiWriter]
+      else if port_upblk D then [PortRule]
+      else if net_none O D N R then [NoWriter]
+      else flag (existsb (conn_viol O D N R is_portrule) (d_conn D)) PortRule
+           ++ flag (existsb (conn_viol O D N R is_invalidconn) (d_conn D)) InvalidConn
+  end.
+
 Definition bit_level_defect (D : design) : option defect := defect_with bitlevel D.
 Definition elab_model (D : design) : option defect := defect_with faithful D.
 
